@@ -435,8 +435,8 @@ def run(ctx):
             return False
         pn = {q.name for q in init.params if q.name not in ("self", "cls")}
         if isinstance(e, ast.Name):
-            if e.id in pn and not [d for d in ctx.flow(init).defs(e.id, st) if d.kind != "param"]:
-                return True
+            if e.id in pn and [d for d in ctx.flow(init).defs(e.id, st) if d.kind == "param"]:
+                return True  # the parameter object itself may arrive here (element stores and re-bindings on other paths do not change that)
             ds = [d for d in ctx.flow(init).defs(e.id, st) if d.kind == "assign" and d.value is not None]
             return any(_aliases_param(init, d.value, d.node, depth + 1) for d in ds)
         if isinstance(e, ast.IfExp):
